@@ -70,7 +70,8 @@ def tally(maxlen):
 def random_json(rng, depth=0):
     r = rng.random()
     if depth > 2 or r < 0.5:
-        return rng.choice([None, True, False, 0, -7, 10 ** 20, 1.5, -0.25, 1e300, "", "s", "ünï\u2028\"\\", "\U0001F600", "\x00\x1f"])
+        return rng.choice([None, True, False, 0, -7, 10 ** 20, 1.5, -0.25, 1e300, 1e16, 1e15, 1e-05, 0.0001, 123456789.123, 5e-324, 1.7976931348623157e308, 0.1, 100.0,
+                           1e22, -2.5e-07, 12345678901234567.0, "\x7f", "\u0080\u07ff\u0800\uffff\U00010000\U0010ffff", "a\tb\nc\rd\be\ff/", "", "s", "ünï\u2028\"\\", "\U0001F600", "\x00\x1f"])
     if r < 0.75:
         return [random_json(rng, depth + 1) for _ in range(rng.randrange(4))]
     return {rng.choice(["a", "b", "ü", "", "a b"]) + str(i): random_json(rng, depth + 1) for i in range(rng.randrange(4))}
@@ -162,7 +163,7 @@ def body_factory(tier, seed):
                 rep.violation("C08:roundtrip:%s:%s" % (kind, C.hashlib.sha1(txt.encode()).hexdigest()[:8]),
                               "unpack(pack(m)) is not m for %r -> %r" % (m, txt[:200]), replay)
             try:
-                pterms.append("mkP %s %s" % (D.cmsg(m), C.cjson(back)))
+                pterms.append("mkP %s %s %s" % (D.cmsg(m), C.cjson(back), C.cs(txt)))
                 pmeta.append(replay)
             except TypeError:
                 pass
